@@ -35,6 +35,7 @@ pub fn batches(prop: &str, tier: &str) -> Vec<Batch> {
             Batch { label: "dict-sequential", engine: "lsp-sim", params: json!({"mode":"sequential","focus":"dict"}), runs: if q { 300 } else { 10_000 } },
             Batch { label: "dict-concurrent", engine: "lsp-sim", params: json!({"mode":"dict"}), runs: if q { 600 } else { 20_000 } },
             Batch { label: "crash-random", engine: "lsp-sim", params: json!({"mode":"crash"}), runs: if q { 400 } else { 30_000 } },
+            Batch { label: "js-import-words", engine: "api-sim", params: json!({"target":"wasm"}), runs: if q { 300 } else { 20_000 } },
             Batch { label: "crash-enum-base", engine: "lsp-sim", params: json!({"mode":"sequential","focus":"dict","enumerate_crash_points":true}), runs: if q { 60 } else { 1_500 } },
         ],
         "C08" => vec![
